@@ -760,24 +760,26 @@ i_LD_DA = i_LD_D
 
 def store(ins,fmap,nbytes,src=None):
     sz = nbytes*8
+    # the data and the registers of the address are read once, in the state
+    # before the instruction. The effective address is then a value: it is
+    # stored through as a pointer (fmap[mem(a,sz)] would evaluate a in fmap
+    # a second time).
     if src is None:
         src = fmap(ins.operands[-1])[0:sz]
     if ins.mode == "Absolute":
-        dst = mem(fmap(ins.operands[0]),sz)
-        fmap[dst] = src
+        fmap[ptr(fmap(ins.operands[0]))] = src
         return
     if ins.mode == "Short-offset":
         addr = fmap(ins.operands[0])
         off = ins.operands[1].signextend(addr.size)
-        dst = mem(addr+off,sz)
-        fmap[dst] = src
+        fmap[ptr(addr+off)] = src
         return
     if ins.mode == "Bit-reverse":
         addr = fmap(ins.operands[0])
-        index = fmap(A[ins.b+1])[0:16].zeroextend(addr.size)
-        incr = fmap(A[ins.b+1][16:32])
-        dst = mem(addr+index,sz)
-        fmap[dst] = src
+        _Abp1 = fmap(A[ins.b+1])
+        index = _Abp1[0:16].zeroextend(addr.size)
+        incr = _Abp1[16:32]
+        fmap[ptr(addr+index)] = src
         new_index = reverse16(reverse16(index[0:16])+reverse16(incr))
         fmap[A[ins.b+1]] = composer([new_index,incr])
         return
@@ -788,8 +790,7 @@ def store(ins,fmap,nbytes,src=None):
         index = _Abp1[0:16].zeroextend(addr.size)
         length = _Abp1[16:32].zeroextend(addr.size)
         new_index = index + off
-        dst = mem(addr+index,sz)
-        fmap[dst] = src
+        fmap[ptr(addr+index)] = src
         if length._is_cst and length.value == 0:
             # a circular buffer of length 0: the index update is undefined
             new_index = top(length.size)
@@ -798,24 +799,23 @@ def store(ins,fmap,nbytes,src=None):
         fmap[A[ins.b+1]] = composer([new_index[0:16],length[0:16]])
         return
     if ins.mode == "Post-increment":
-        _ea = ins.operands[0]
-        off = ins.operands[1].signextend(_ea.size)
-        dst = mem(fmap(_ea),sz)
-        fmap[dst] = src
-        fmap[_ea] = fmap(_ea+off)
+        addr = ins.operands[0]
+        off = ins.operands[1].signextend(addr.size)
+        _ea = fmap(addr)
+        fmap[ptr(_ea)] = src
+        fmap[addr] = _ea+off
         return
     if ins.mode == "Pre-increment":
         addr = ins.operands[0]
         off = ins.operands[1].signextend(addr.size)
         _ea = fmap(addr+off)
-        fmap[mem(_ea,sz)] = fmap(src)
+        fmap[ptr(_ea)] = src
         fmap[addr] = _ea
         return
     # SC, SLR, SLRO modes:
     addr = fmap(ins.operands[0])
     off = ins.operands[1]
-    dst = mem(addr+off,sz)
-    fmap[dst] = src
+    fmap[ptr(addr+off)] = src
 
 @__npc
 def i_ST_A(ins,fmap):
